@@ -366,6 +366,13 @@ def gen_l2(rng, params):
         'h_h2': rng.random() < 0.15 and problem in ('Dirichlet',
                                                      'MildSingular'),
     }
+    if problem in ('Dirichlet', 'MildSingular'):
+        # other driver switches: the hierarchical estimator, and grading as
+        # post-processing of the adaptive refinement (keeps h_x^2/h_t < 4)
+        if rng.random() < 0.1:
+            spec['hierarchical'] = True
+        if spec['refinement'] != 'uniform' and rng.random() < 0.15:
+            spec['grading'] = 2
     with_u0 = problem in ('Smooth', 'Singular')
     phases = []
     k_iter = 1 if with_u0 else rng.choice([1, 2, 2, 3])
